@@ -419,6 +419,7 @@ let rec is_prefix a b = match a, b with
   | _ -> false
 
 let victims_ref : int list ref = ref []
+let last_annot : string ref = ref ""
 let compatible (exp : ((int * string list) list * string list) option) (os : obs list) : bool =
   let os = List.filter (function BCall (l, _) -> not (List.mem (int_of_nat l) !victims_ref) | _ -> true) os in
   match exp with
@@ -441,6 +442,35 @@ let compatible (exp : ((int * string list) list * string list) option) (os : obs
         | None -> ok := false) calls;
     !ok
 
+(* the operational characterisation proved in Proofs/NetRefine.v (updates_once_after_deps): the update closure
+   of a node runs in a transaction iff one of its instantaneous dependencies (Net.ndeps) fired. Evaluated on the
+   specification's firings for the definitions whose implementation node is the definition's own node. *)
+let comparable (d : def) : bool =
+  match d with
+  | DMap _ | DFilter _ | DMerge _ | DSnapshot _ | DGate _ | DOnce _ | DHold _ | DMapC _ | DLift _ | DSLoop | DCLoop -> true
+  | _ -> false
+
+let expected_updates (st1 : state) : (int list * int list) option =
+  (* (comparable primary slots, those expected to update), None if something is not evaluable *)
+  let inj = st1.sends in
+  let fu = f st1 in
+  let fired k =
+    match alookup st1.defs k with
+    | Some d ->
+      (match (if is_cell d then upd0 st1 inj fu k else occ st1 inj fu k) with
+       | EV (Some _) -> Some true | EV None -> Some false | EErr _ -> None)
+    | None -> Some false in
+  let ok = ref true and comp = ref [] and exp = ref [] in
+  List.iter (fun (k, d) ->
+      let k' = int_of_nat k in
+      if k' mod 8 = 0 && comparable d then begin
+        comp := (k' / 8) :: !comp;
+        let ds = ndeps st1 k in
+        let any = List.exists (fun dk -> match fired dk with Some b -> b | None -> ok := false; false) ds in
+        if any then exp := (k' / 8) :: !exp
+      end) st1.defs;
+  if !ok then Some (List.sort_uniq compare !comp, List.sort_uniq compare !exp) else None
+
 (* all outcomes of one script line from one state: the operations of the line, then every allowed order
    of the deferred transactions (depth-first, pruned by the expected observation, memoised on states) *)
 let line_outcomes env (st0 : state) line (expected : string option) : (state * string * bool) list =
@@ -451,6 +481,8 @@ let line_outcomes env (st0 : state) line (expected : string option) : (state * s
   let results = ref [] and budget = ref 20000 in
   let seen = Hashtbl.create 97 in
   victims_ref := List.map snd env.killers;
+  let upd_ann = ref None and closings = ref 0 in
+  let has_switch st = List.exists (fun (_, d) -> match d with DSwitchC _ | DSwitchS _ -> true | _ -> false) st.defs in
   (* after the line: unlisten the victims whose killer was called in it *)
   let finish (st : state) (acc : obs list) : state * string =
     let vs = fired_killers env.killers acc in
@@ -482,10 +514,32 @@ let line_outcomes env (st0 : state) line (expected : string option) : (state * s
   let rec go (st : state) (acc : obs list) = function
     | [] -> let (st', out) = finish st acc in add (st', out, false)
     | o :: rest ->
+      (* state in which the outermost transaction closes, if this operation closes it *)
+      let closing_state =
+        let d = int_of_nat st.depth in
+        match o with
+        | OBegin | OTNew _ -> None
+        | OEnd -> if d = 1 then Some st else None
+        | OTClose t -> if d = 1 && alookup st.tdone t = Some false then Some st else None
+        | _ -> if d = 0 then (match body (set_depth st (S O)) o with EV (s1, _) -> Some s1 | EErr _ -> None) else None in
       (match step_q st o with
-       | EV ((st1, os), q) -> drain st1 q (acc @ os) (fun st2 acc2 -> go st2 acc2 rest)
+       | EV ((st1, os), q) ->
+         (match closing_state with
+          | Some cs ->
+            incr closings;
+            if q = [] && not (has_switch cs) then upd_ann := expected_updates cs else upd_ann := None
+          | None -> ());
+         drain st1 q (acc @ os) (fun st2 acc2 -> go st2 acc2 rest)
        | EErr e -> add (st, canon (acc @ [BPanic e]), true)) in
   go st0 [] ops;
+  let ints_s l = String.concat "," (List.map string_of_int l) in
+  let annot out =
+    if !closings = 1 then
+      (match !upd_ann with
+       | Some (comp, exp) -> out ^ " #uc=" ^ ints_s comp ^ " ue=" ^ ints_s exp
+       | None -> out)
+    else out in
+  last_annot := annot "";
   if !results = [] then begin
     (* nothing compatible: report the default order *)
     let rec dflt (st : state) (q : ditem list) (acc : obs list) fuel =
@@ -521,7 +575,10 @@ let run_frp_guided oc (name, lines) =
           | None -> [] in
         let chosen = if matching <> [] then matching else [List.hd all] in
         let (_, out, stop) = List.hd chosen in
-        Printf.fprintf oc "%s\n" out;
+        (* the update-set annotation is computed from the state before the close, which does not depend on the
+           order of the deferred transactions of THIS line; with several candidate states it may differ: only
+           print it when there is a single candidate *)
+        Printf.fprintf oc "%s%s\n" out (if List.length !cands = 1 then !last_annot else "");
         if stop then stopped := true;
         let sts = List.fold_left (fun acc (s, _, _) -> if List.mem s acc then acc else acc @ [s]) [] chosen in
         let rec take n l = if n = 0 then [] else match l with [] -> [] | x :: t -> x :: take (n - 1) t in
@@ -561,19 +618,19 @@ let gc_rand seed count maxlen nmax emax hmax =
   Random.init seed;
   for k = 1 to count do
     Printf.printf "# r%d_%d\n" seed k;
-    let len = 3 + Random.int (max 1 (maxlen - 2)) in
+    let len = 3 + Random.int (Stdlib.max 1 (maxlen - 2)) in
     let s = ref sinit and stop = ref false and i = ref 0 in
     while not !stop && !i < len do
       incr i;
       let n = List.length !s.g.objs in
       let pick () =
         let r = Random.int 100 in
-        let o () = nat_of_int (Random.int (max 1 n)) in
+        let o () = nat_of_int (Random.int (Stdlib.max 1 n)) in
         if n = 0 || (r < 14 && n < nmax) then GCreate
         else if r < 24 then GClone (o ())
         else if r < 44 then GDrop (o ())
         else if r < 70 then GAddEdge (o (), o ())
-        else if r < 80 then GRemoveEdge (o (), nat_of_int (Random.int (max 1 emax)))
+        else if r < 80 then GRemoveEdge (o (), nat_of_int (Random.int (Stdlib.max 1 emax)))
         else if r < 88 then GUpgrade (o ())
         else GCollect in
       let rec valid_pick tries =
